@@ -15,7 +15,7 @@ UNITS = {
     "actors": dict(engine="verus", serves=["C09", "C10", "C11", "C13"]),
     "sign": dict(engine="verus", serves=["C04", "C10", "C13", "C15"]),
     "keystore":  dict(engine="verus", serves=["C08", "C13"]),
-    "keykeeper": dict(engine="verus", serves=["C08", "C09", "C13"]),
+    "keykeeper": dict(engine="verus", serves=["C08", "C09", "C13", "C10"]),
     "ebpf_c":  dict(engine="cbmc", serves=["C06"], path="c/ebpf", kind="CBMC function contracts (goto-instrument --dfcc) on the unmodified linux-ebpf/ebpf_cgroup.c against a contract-level model of the BPF helpers; gcc replay of counterexamples"),
     "ebpf_rs": dict(engine="kani", serves=["C06"], path="kani/ebpf_rs", kind="Kani full-domain harnesses over the real ebpf_obj.rs (#[path]) and byte-for-byte extracted redirector items; layout table shared with the C side"),
     "authorizer": dict(engine="verus", serves=["C03", "C11", "C01", "C13"]),
@@ -103,16 +103,17 @@ PROPERTIES["C19"] = dict(
                "removing a prefix of the sorted listing (oldest first), so that after the one file written / re-opened the count is <= max; "
                "roll_if_needed/write_line/write_many/write preserve the count invariant and keep every log file <= limit + one write; the "
                "file-count guard of event_logger::start (E5 slice) writes only when listed files < cap; configured counts >= 1 proved at every call site. "
-               "Unit listing: the real body of RollingLogger::get_log_files (read_dir loop, metadata, name test, sort) is proved, against a ghost "
-               "model of what read_dir yields, to list every regular file whose name starts with the configured log file name, only selected "
-               "entries, each once, sorted.",
+               "Unit listing: the real bodies of RollingLogger::get_log_files, misc_helpers::get_files and misc_helpers::search_files (read_dir loop, "
+               "metadata, name test / regex match on the file name, sort) are proved, against a ghost model of what read_dir yields, to list every "
+               "file of their class (regular files whose name starts with the configured log file name / all regular files / regular files whose "
+               "name matches the pattern), only selected entries, each once, sorted.",
     level_note="Trusted: Verus/Z3/rustc; the directory model (listing stubs return exactly the class, sorted; POSIX remove/rename/metadata; "
                "open_file creates the current file empty; json_write_to_file adds <= 1 file; LineWriter bytes accounted when handed over); "
                "name order = age order for archive/dump names; Vec length < usize::MAX. Bounds hold along histories where remove_file and the "
                "deciding listing do not fail (after a failure the next roll/write_all restores them from any state, proved). Not covered: "
-               "several threads using one RollingLogger, other processes writing the directories, the read_dir loops of misc_helpers::get_files / "
-               "search_files (stubs). The two directory models are not linked by a lemma: unit disk assumes its get_log_files stub lists its "
-               "class `Dir.files`; unit listing proves what the real body lists over `DirModel.entries` (std::fs read_dir/metadata/sort contracts assumed).",
+               "several threads using one RollingLogger, other processes writing the directories. The two directory models are not linked by a "
+               "lemma: unit disk assumes its listing stubs list their class `Dir.files`; unit listing proves what the real bodies of get_log_files, "
+               "get_files, search_files (and get_file_name) list over `DirModel.entries` (std::fs read_dir/metadata/sort, regex and OsStr contracts assumed).",
     design_ref="DESIGN.md section 3 C19",
     assumptions=[],
 )
@@ -239,11 +240,11 @@ PROPERTIES["C04"] = dict(
     design_ref="DESIGN.md section 3 C04", assumptions=[],
 )
 PROPERTIES["C10"] = dict(
-    units=["sign", "actors", "handler"],
+    units=["sign", "actors", "handler", "keykeeper"],   # keykeeper: what loop_poll latches / attests is ONE record (as attested or as read from the store)
     technique="Verus contracts, rely/guarantee over the key-keeper actor: each wrapper call = one actor message with an existential postcondition; pair_ok precondition on build_request/get; E5 slice of the handler's key read; actor arms and wrapper bodies (unit actors)",
     level_text="Deductive proof (Verus/Z3) for every await-point interleaving: build_request/get/attest_key emit `scheme <g> mac(k, ..)` only for a pair (g,k) that is one key record, and what is sent is that request; the obligation holds at all four reading sites (handle_request_with_signature, get_goalstate, get_shared_config, get_imds_instance_info) and at attest_key because one GetKey message returns the whole record; the GetKey arm replies a clone of the current record, SetKey stores its argument, each wrapper sends exactly its own message. In unit handler the whole of handle_request_with_signature is under the precondition of the upstream write primitive "
                "`unsigned as the client sent it, or signed with a key id and key that are one record` (key_id_names_signing_key): only get_current_key (one message) yields a record.",
-    level_note="Trusted: Verus/Z3/rustc; tokio channel specs; the actor dispatch loop itself (only the arms are verified); attest_key's caller passes one record. Concurrency model: await-point interleavings of tokio tasks; OS-thread data races inside tokio are not covered.",
+    level_note="Trusted: Verus/Z3/rustc; tokio channel specs; the actor dispatch loop itself (only the arms are verified). The record latched by KeyKeeper::loop_poll is one record as the host handed it out / as read from the local store (unit keykeeper: preconditions of update_key and attest_key, labelled C08+C10). Concurrency model: await-point interleavings of tokio tasks; OS-thread data races inside tokio are not covered.",
     design_ref="DESIGN.md section 3 C10", assumptions=[],
 )
 PROPERTIES["C08"] = dict(
